@@ -48,7 +48,14 @@ class TPath:
 
 def _is_unique_name(N, node) -> bool:
     """`'x' | to_template_unique_name`-like bindings: the variable *is* the identity of a generated name - never inlined"""
-    return any(isinstance(f, N.Filter) and "unique" in f.name for f in [node] + list(node.find_all(N.Filter)))
+    hit = _UNIQ_MEMO.get(id(node))
+    if hit is not None and hit[0] is node:
+        return hit[1]
+    r = any(isinstance(f, N.Filter) and "unique" in f.name for f in [node] + list(node.find_all(N.Filter)))
+    if len(_UNIQ_MEMO) > 200000:
+        _UNIQ_MEMO.clear()
+    _UNIQ_MEMO[id(node)] = (node, r)
+    return r
 
 
 def _string_building(N, node, p, depth=0) -> bool:
@@ -95,12 +102,38 @@ def _inline_value(N, node, p, depth=0):
         return None
     if _string_building(N, node, p):
         return node
+    # an alias of an attribute path (`{% set r = f.data_type.inclusive_value_range %}`): `r.min` is spelled as the full path
+    base = node
+    while isinstance(base, N.Getattr):
+        base = base.node
+    if isinstance(node, N.Getattr) and isinstance(base, N.Name) and p.binding(base.name) is None and id(node) not in _PARAM_BOUND:
+        # (only over a name that is free on this path, and only for `{% set %}`: a macro parameter bound to `t.inner_type`
+        # shadows the caller's `t`, and the parameters of nested expansions of one macro share their names)
+        return node
     return None
+
+
+_PARAM_BOUND: typing.Set[int] = set()  # ids of argument nodes bound to macro parameters by helper expansion (template ASTs outlive it)
+_SUB_MEMO: typing.Dict[typing.Any, typing.Any] = {}
+_UNIQ_MEMO: typing.Dict[int, typing.Any] = {}
 
 
 def _sub_of(N, p):
     if p is None or not p.env:
         return None
+    # memo per (bindings, conditions); the entry keeps the environment alive, so the node ids in the key stay unique
+    key = (tuple((n, id(b)) for n, b in p.env), p.conds)
+    hit = _SUB_MEMO.get(key)
+    if hit is not None:
+        return hit[1]
+    r = _sub_of_uncached(N, p)
+    if len(_SUB_MEMO) > 200000:
+        _SUB_MEMO.clear()
+    _SUB_MEMO[key] = (p.env, r)
+    return r
+
+
+def _sub_of_uncached(N, p):
     out = {}
     for name, _node in p.env:
         b = p.binding(name)
@@ -263,6 +296,7 @@ def render_paths(N, nodes, limit: int = 512, for_zero: bool = False, subst=None,
                                     if val is not None and not (isinstance(val, N.Name) and val.name == a.name):
                                         # the argument is evaluated in the caller's scope: inline the caller's bindings into it now
                                         bind.append((a.name, val))
+                                        _PARAM_BOUND.add(id(val))
                                 inner = run(mac.body, [TPath(p.parts, p.conds, p.ph, p.env + tuple(bind), p.cnodes)])
                                 for q in inner:
                                     nxt.append(TPath(q.parts, q.conds, q.ph, p.env, q.cnodes))
